@@ -11,16 +11,21 @@ import (
 )
 
 const oracleText = "oracle per case (the sequence is played twice against one helios process): (i) every client call of a fault step ends - HTTP response of any status or closed/reset connection - within 2*(read+write+backend_dial+backend_read)+2 s = 12 s, no end after 20 s = wedged; " +
-	"(ii) afterwards, polling from fresh client addresses, a request is answered 200 by a backend within 8 s (nominal 4 s, measured time is a class label), the next 5 requests succeed, and /v1/backends stops reporting an ejected backend within the same 8 s; " +
+	"(ii) afterwards, polling from fresh client addresses, within 8 s (nominal 4 s, measured time is a class label) a request is answered 200 by a backend and the next 5 requests succeed too (a failure in between restarts the count: the bookkeeping of a faulted request whose client has already gone may still open the breaker or eject a backend inside the window), and /v1/backends stops reporting an ejected backend within the same 8 s; " +
 	"(iii) the process is alive, its log has no panic / fatal error / goroutine trace, /v1/backends shows every active_connections at 0 within 3 s; " +
 	"(iv) the open-fd count is back at <= baseline+20 and the second run does not end more than 2 fds above the first"
 
 // workers is the number of labs (helios process + 2 raw backends) a shard runs in parallel.
-func workers() int { return lab.Scale(10, 10) }
+func workers() int { return 12 } // per sub-check; the shard-wide bound is labSlots (run.go)
 
 type replayDoc struct {
+	Kind      string `json:"kind,omitempty"`
 	Cfg       Cfg    `json:"cfg"`
+	Opening   string `json:"opening_fault,omitempty"`
 	Steps     []Step `json:"steps"`
+	Clients   int    `json:"clients,omitempty"`
+	Seconds   int    `json:"seconds,omitempty"`
+	FreeRun   int    `json:"free_running_clients,omitempty"`
 	Original  *Case  `json:"original_case_before_minimisation,omitempty"`
 	Violation string `json:"violation"`
 	Config    string `json:"helios_yaml"`
@@ -41,6 +46,8 @@ func runAll(t *testing.T, cases []Case) []Result {
 		go func() {
 			defer wg.Done()
 			for i := range ch {
+				// a lab helper that fails the test from this goroutine (t.Fatalf = Goexit) must not leave a zero, i.e. passing, result behind
+				res[i] = Result{Harness: "the case did not run to completion (lab set-up failed, see the test log)"}
 				func() {
 					defer func() {
 						if p := recover(); p != nil {
@@ -123,6 +130,29 @@ func judge(t *testing.T, name string, sub *lab.SubCheck, cases []Case, res []Res
 		if conc {
 			labels = append(labels, "has-concurrent-step")
 		}
+		switch c.Kind {
+		case "breaker-trial":
+			labels = append(labels, "opening="+c.Opening)
+			if c.Cfg.BreakerMaxRequestsUnset {
+				labels = append(labels, "max-requests-unset")
+			}
+		case "window-expiry":
+			labels = append(labels, fmt.Sprintf("clients=%d", c.Clients), fmt.Sprintf("passive-threshold=%d", c.Cfg.PassiveThreshold))
+			if r.Expiries >= 20 {
+				labels = append(labels, "expiries>=20")
+			}
+			sub.Count("window-expiries-total", r.Expiries)
+			sub.Count("burst-requests-total", r.Requests)
+			sub.Count("volleys-total", r.Volleys)
+			switch {
+			case c.FreeRunning >= c.Clients:
+				labels = append(labels, "mode=free-running")
+			case c.FreeRunning > 0:
+				labels = append(labels, "mode=mixed")
+			default:
+				labels = append(labels, "mode=volleys")
+			}
+		}
 		for _, n := range r.Reruns {
 			sub.Note(fmt.Sprintf("case %s re-run because the environment canary recorded a stall: %s", c, tail(n, 700)))
 		}
@@ -151,8 +181,8 @@ func judge(t *testing.T, name string, sub *lab.SubCheck, cases []Case, res []Res
 		}
 	}
 	c, r := cases[failed], res[failed]
-	doc := replayDoc{Cfg: c.Cfg, Steps: c.Steps, Violation: r.Violation, Config: r.YAML, HeliosLog: tail(r.Log, 20000)}
-	if !replaying && len(c.Steps) > 0 {
+	doc := replayDoc{Kind: c.Kind, Cfg: c.Cfg, Opening: c.Opening, Steps: c.Steps, Clients: c.Clients, Seconds: c.Seconds, FreeRun: c.FreeRunning, Violation: r.Violation, Config: r.YAML, HeliosLog: tail(r.Log, 20000)}
+	if !replaying && len(c.Steps) > 0 && c.Kind == "" {
 		if mc, mr, changed := minimise(t, c, r.Violation); changed {
 			orig := c
 			doc = replayDoc{Cfg: mc.Cfg, Steps: mc.Steps, Original: &orig, Violation: mr.Violation, Config: mr.YAML, HeliosLog: tail(mr.Log, 20000)}
@@ -221,6 +251,7 @@ func enumerated() []Case {
 }
 
 func TestC03SingleFaults(t *testing.T) {
+	t.Parallel()
 	const name = "single-faults-enumerated"
 	sub := lab.Sub(name, "complete enumeration: every single fault of {refuse, hang-headers, reset-after-headers, short-body, garbage, 5xx, slow-body (20 ms trickle then full stall mid-body), client-abort-upload, client-abort-download} "+
 		"x circuit breaker off/on x burst sequential (4 requests) / concurrent (2-8 requests) [thorough: x each of the 5 strategies], against the real helios binary with all timeouts at 1-2 s and a GOOD plus a FAULTY raw TCP backend; "+
@@ -252,6 +283,7 @@ func TestC03SingleFaults(t *testing.T) {
 }
 
 func TestC03Sequences(t *testing.T) {
+	t.Parallel()
 	const name = "fault-sequences-sampled"
 	k := lab.Scale(3, 5)
 	sub := lab.Sub(name, fmt.Sprintf("sampled: rapid generator (seeded per case from VERIF_SEED, shard and case index; cases of a shard are drawn first and then executed by %d parallel labs): strategy x breaker off/failure_threshold 2-4 x limiter x passive x active x plugin chain x backend order, "+
@@ -277,6 +309,89 @@ func TestC03Sequences(t *testing.T) {
 		base := lab.SubSeed(name)
 		for i := 0; i < n; i++ {
 			cases = append(cases, g.Example(int(mix(base+uint64(i))>>2)))
+		}
+	}
+	res := runAll(t, cases)
+	judge(t, name, sub, cases, res, replay)
+}
+
+// trialCases is the complete table opening fault x trial fault x max_requests written/unset.
+func trialCases() []Case {
+	var out []Case
+	i := 0
+	for _, opening := range []string{"5xx", "refuse", "reset-after-headers"} {
+		for _, f := range Faults {
+			for _, unset := range []bool{false, true} {
+				h := mix(lab.Seed()*1000033 + uint64(i))
+				out = append(out, Case{Kind: "breaker-trial", Opening: opening, Steps: []Step{{Fault: f}},
+					Cfg: Cfg{Strategy: Strategies[(uint64(i)+lab.Seed())%5], FaultyFirst: h&1 == 1, Limiter: h&2 != 0, Plugins: h&4 != 0, Breaker: 2, BreakerMaxRequestsUnset: unset}})
+				i++
+			}
+		}
+	}
+	return out
+}
+
+func TestC03BreakerTrial(t *testing.T) {
+	t.Parallel()
+	const name = "breaker-trial-faults-enumerated"
+	sub := lab.Sub(name, "complete enumeration: opening fault {5xx, refuse, reset-after-headers} x trial fault (each of the 9) x circuit_breaker.max_requests {1, left out of the YAML}; breaker failure_threshold 2, success_threshold 1, timeout 1 s, passive and active checks off "+
+		"(strategy, limiter, plugin chain, backend order: pure function of seed and table index); the opening fault is played by BOTH backends until the proxy itself answers 503 'circuit breaker is open' (class breaker-opened), "+
+		"then breaker timeout + 0.2 s after the last failure ONE request carrying the trial fault on both backends is sent: the request the half-open breaker admits (class fault-on-trial); everything twice per helios process; "+oracleText+
+		" - in particular (ii): after the faulted trial the proxy must serve 200 again within 8 s instead of answering 429/503 forever; every case is non-trivial")
+	sub.NontrivialFloor(1.0)
+	sub.Floor("breaker-opened", 0.90)
+	sub.Floor("fault-on-trial", 0.85)
+	assumptions()
+	var rc Case
+	replay := lab.ReplayCase(name, &rc)
+	if lab.Replaying() && !replay {
+		t.Skip("replay of another sub-check")
+	}
+	var cases []Case
+	if replay {
+		cases = []Case{rc}
+	} else {
+		for i, c := range trialCases() {
+			if i%lab.Shards() == lab.Shard() {
+				cases = append(cases, c)
+			}
+		}
+	}
+	res := runAll(t, cases)
+	if !replay {
+		sub.Exhaustive()
+	}
+	judge(t, name, sub, cases, res, replay)
+}
+
+func TestC03WindowExpiry(t *testing.T) {
+	t.Parallel()
+	const name = "concurrent-burst-at-window-expiry"
+	sub := lab.Sub(name, "sampled: passive checks on (unhealthy_threshold 1-2, unhealthy_timeout 1 s), breaker and limiter off, strategy rotating over all five by case index; a seeded rapid generator draws active checks, plugin chain, backend order, "+
+		"8-64 keep-alive clients, 5-8 s, the client mode (all in synchronised volleys / half free-running back to back / all free-running) and 8-32 backend entries that all point at the FAULTY server (each entry has its own health state and window) next to one GOOD entry; "+
+		"FAULTY answers 500 to everything (entry ejected, window expires after 1 s, re-admitted by the next request, fails again, ...), GOOD answers 200; in a volley every client has its connection open, waits at a barrier and all write their request at the same instant, "+
+		"so the first requests after an expiry reach the re-admission path together (expiries counted from the helios log: window-expiries-total, class expiries>=20 per case); clause (i) for every single request of the burst, then (ii)-(iv) as everywhere; played twice per helios process; "+oracleText+"; every case is non-trivial")
+	sub.NontrivialFloor(1.0)
+	sub.Floor("expiries>=20", 0.80)
+	sub.Floor("fault-delivered", 0.90)
+	assumptions()
+	var rc Case
+	replay := lab.ReplayCase(name, &rc)
+	if lab.Replaying() && !replay {
+		t.Skip("replay of another sub-check")
+	}
+	var cases []Case
+	if replay {
+		cases = []Case{rc}
+	} else {
+		n := lab.Share(lab.Scale(16, 64))
+		base := lab.SubSeed(name)
+		for j := 0; j < n; j++ {
+			gi := uint64(lab.Shard() + j*lab.Shards())
+			c := genExpiry().Example(int(mix(base+uint64(j)) >> 2))
+			c.Cfg.Strategy = Strategies[(gi+lab.Seed())%5]
+			cases = append(cases, c)
 		}
 	}
 	res := runAll(t, cases)
@@ -335,6 +450,7 @@ func reproBodyStall(t testing.TB, observe time.Duration) (string, Result) {
 }
 
 func TestC03KnownFindings(t *testing.T) {
+	t.Parallel()
 	const name = "known-finding-reproductions"
 	sub := lab.Sub(name, "one fixed reproduction (regression case): round_robin, every optional feature off, one GET whose backend sends the response head and 9 x 512 of 76800 body bytes and then stalls; the call must end within the 12 s bound of clause (i); "+
 		"a failing reproduction of an OPEN entry of known_findings.json prints KNOWN-FINDING, any other failure is a violation")
